@@ -87,6 +87,58 @@ Proof.
   destruct (get_frame st id) as [f|]; [|reflexivity]. destruct (f_parent f); [apply IH|reflexivity].
 Qed.
 
+(** stepping all traces commutes with removing the virtual signals *)
+Lemma trace_step_strip t n : trace_step (strip_trace t) n = (strip_trace (fst (trace_step t n)), snd (trace_step t n)).
+Proof.
+  unfold trace_step. cbn [strip_trace set_virt tr_index tr_max tr_tid].
+  destruct ((tr_index t + n <? 0) || (tr_max t <? tr_index t + n)); reflexivity.
+Qed.
+Lemma step_all_strip ts n : step_all (strip_traces ts) n = (strip_traces (fst (step_all ts n)), snd (step_all ts n)).
+Proof.
+  induction ts as [|[k t] r IH]; [reflexivity|]. cbn [strip_traces map fst snd step_all].
+  change (map (fun p => (fst p, strip_trace (snd p))) r) with (strip_traces r). rewrite IH, trace_step_strip.
+  destruct (trace_step t n) as [t' e]. destruct (step_all r n) as [r' es]. reflexivity.
+Qed.
+Lemma indices_strip ts : map (fun p : string * trace => (tr_tid (snd p), tr_index (snd p))) (strip_traces ts)
+                          = map (fun p : string * trace => (tr_tid (snd p), tr_index (snd p))) ts.
+Proof. unfold strip_traces. rewrite map_map. apply map_ext. intros [k t]. reflexivity. Qed.
+Definition strip_cont (c : container) : container := with_traces c (strip_traces (c_traces c)).
+Lemma cont_step_strip c off c2 e : cont_step (cont_store c) off None = Some (c2, e) ->
+  cont_step (cont_store (strip_cont c)) off None = Some (strip_cont c2, e).
+Proof.
+  unfold cont_step, cont_store, strip_cont, with_traces, cont_indices. cbn [c_traces c_ntraces c_stack]. intros H.
+  destruct (step_all (c_traces c) off) as [ts es] eqn:E. injection H as <- <-. cbn [c_traces c_ntraces c_stack].
+  rewrite step_all_strip, E, indices_strip. reflexivity.
+Qed.
+Lemma all_in_range_strip ts off : all_in_range (strip_traces ts) off = all_in_range ts off.
+Proof. induction ts as [|[k t] r IH]; [reflexivity|]. cbn [strip_traces map fst snd all_in_range strip_trace set_virt tr_max tr_index]. rewrite <- IH. reflexivity. Qed.
+
+Lemma step_all_lookup ts n : forall id, alookup id (fst (step_all ts n)) = option_map (fun t => fst (trace_step t n)) (alookup id ts).
+Proof.
+  induction ts as [|[k t] r IH]; intros id; [reflexivity|]. cbn [step_all]. destruct (trace_step t n) as [t' e] eqn:Et.
+  destruct (step_all r n) as [r' es] eqn:Er. cbn [fst alookup]. destruct (String.eqb id k); [cbn [option_map]; rewrite Et; reflexivity|]. apply (IH id).
+Qed.
+Lemma trace_step_virt t n : tr_virt (fst (trace_step t n)) = tr_virt t.
+Proof. unfold trace_step. destruct ((tr_index t + n <? 0) || (tr_max t <? tr_index t + n)); reflexivity. Qed.
+
+Lemma address_moved c off c2 e n : cont_step (cont_store c) off None = Some (c2, e) ->
+  address c2 n = match address c n with AOne t sig => AOne (fst (trace_step t off)) sig | ABadTid => ABadTid | ANone => ANone end.
+Proof.
+  unfold cont_step, cont_store. cbn [c_traces]. intros H. destruct (step_all (c_traces c) off) as [ts es] eqn:E. injection H as <- _.
+  unfold address. cbn [with_traces c_ntraces c_traces]. destruct ((c_ntraces c =? 1) && negb (has_sep n)).
+  - destruct (c_traces c) as [|[k t] r]; [cbn in E; injection E as <- _; reflexivity|].
+    cbn [step_all] in E. destruct (trace_step t off) as [t' e']. destruct (step_all r off) as [r' es']. injection E as <- _. reflexivity.
+  - destruct (ssplit_first "^"%char n) as [[tid sig]|]; [|reflexivity].
+    replace ts with (fst (step_all (c_traces c) off)) by (rewrite E; reflexivity). rewrite step_all_lookup.
+    destruct (alookup tid (c_traces c)); reflexivity.
+Qed.
+
+Lemma clean_moved st off c2 e n : cont_step (cont_store (st_cont st)) off None = Some (c2, e) -> clean st n -> clean (upd_cont st c2) n.
+Proof.
+  intros Hs [Ha Hc]. split; [exact Ha|]. cbn [upd_cont st_cont]. rewrite (address_moved _ _ _ _ n Hs).
+  destruct (address (st_cont st) n) as [t sig| |]; [|exact I|exact I]. rewrite trace_step_virt. exact Hc.
+Qed.
+
 Section Names.
   Variable names : list string.
   Definition okF (st : state) : Prop := cwf (st_cont st) /\ Forall (clean st) names.
@@ -256,6 +308,57 @@ Section Names.
       inversion Hr as [|? ? [Pe Ee] _]; subst. exact Ee.
     Qed.
 
+    Lemma fr_op_reval args : Forall both args -> fr (op_reval ev args).
+    Proof.
+      intros HF st a Hok H. destruct Hok as [Hw Hcl].
+      destruct args as [|e [|o [|? ?]]]; try (unfold op_reval in H; cbn in H; discriminate).
+      inversion HF as [|? ? [Pe Fe] HF1]; subst. inversion HF1 as [|? ? [Po Fo] _]; subst.
+      destruct (valid_body e) eqn:Hv.
+      2:{ unfold op_reval in H. cbn [List.length Nat.eqb assert] in H. unfold bind at 1 in H. cbn [ret] in H.
+          fold (valid_body e) in H. rewrite Hv in H. discriminate. }
+      pose proof (okst_strip st Hw) as Hoks.
+      destruct (ev o (strip st)) as [ov s1| | |] eqn:Eo.
+      2,3,4: (unfold op_reval in H; cbn [List.length Nat.eqb assert] in H; unfold bind at 1 in H; cbn [ret] in H;
+              fold (valid_body e) in H; rewrite Hv in H; cbn [assert] in H; unfold bind at 1 in H; cbn [ret] in H;
+              unfold bind at 1 in H; rewrite Eo in H; discriminate).
+      pose proof (Po _ _ _ Hoks Eo) as ->.
+      pose proof (Fo st ov (conj Hw Hcl) Eo) as Eo'.
+      destruct (int_of ov) as [off|] eqn:Hi.
+      2:{ unfold op_reval in H. cbn [List.length Nat.eqb assert] in H. unfold bind at 1 in H. cbn [ret] in H.
+          fold (valid_body e) in H. rewrite Hv in H. cbn [assert] in H. unfold bind at 1 in H. cbn [ret] in H.
+          unfold bind at 1 in H. rewrite Eo, Hi in H. discriminate. }
+      destruct (all_in_range (c_traces (st_cont st)) off) eqn:Hr.
+      - (* in range *)
+        assert (Hr' : all_in_range (c_traces (st_cont (strip st))) off = true).
+        { unfold strip. cbn [upd_cont st_cont with_traces c_traces]. rewrite all_in_range_strip. exact Hr. }
+        destruct (reval_in_range ev e o st ov off st Hv Eo' Hi Hr) as (c & Hs & _ & E).
+        destruct (reval_in_range ev e o (strip st) ov off (strip st) Hv Eo Hi Hr') as (c' & Hs' & _ & E').
+        unfold shifted in Hs, Hs'.
+        assert (Ec : c' = strip_cont c).
+        { pose proof (cont_step_strip _ _ _ _ Hs) as X. change (st_cont (strip st)) with (strip_cont (st_cont st)) in Hs'.
+          rewrite X in Hs'. injection Hs' as <-. reflexivity. }
+        subst c'. rewrite E' in H. rewrite E.
+        assert (Estrip : upd_cont (strip st) (strip_cont c) = strip (upd_cont st c)) by reflexivity.
+        rewrite Estrip in H.
+        assert (Hwc : cwf c) by (apply (cwf_cont_step _ _ _ _ _ Hs), cwf_cont_store, Hw).
+        destruct (ev e (strip (upd_cont st c))) as [v st2| | |] eqn:Ee; try discriminate.
+        pose proof (Pe _ _ _ (okst_strip (upd_cont st c) Hwc) Ee) as ->.
+        assert (Hrs : cont_restore (st_cont (strip (upd_cont st c))) = Some (st_cont (strip st))).
+        { change (st_cont (strip (upd_cont st c))) with (strip_cont c).
+          apply (restore_after_step (strip_cont (st_cont st)) off (strip_cont c) []); [apply cwf_strip, Hw|apply cont_step_strip, Hs]. }
+        rewrite Hrs in H. injection H as <-.
+        assert (Fe' : ev e (upd_cont st c) = Ok v (upd_cont st c)).
+        { apply Fe; [|exact Ee]. split; [exact Hwc|]. apply Forall_forall. intros n Hn. rewrite Forall_forall in Hcl.
+          apply (clean_moved st off c [] n Hs), Hcl, Hn. }
+        rewrite Fe'. cbn [upd_cont st_cont]. rewrite (restore_after_step (st_cont st) off c [] Hw Hs).
+        destruct st; reflexivity.
+      - (* out of range *)
+        assert (Hr' : all_in_range (c_traces (st_cont (strip st))) off = false).
+        { unfold strip. cbn [upd_cont st_cont with_traces c_traces]. rewrite all_in_range_strip. exact Hr. }
+        rewrite (reval_out_of_range ev e o (strip st) ov off (strip st) Hv Eo Hi Hr') in H. injection H as <-.
+        apply (reval_out_of_range ev e o st ov off st Hv Eo' Hi Hr).
+    Qed.
+
   End WithEv.
 
   (** the names an expression mentions *)
@@ -266,15 +369,24 @@ Section Names.
     | _ => []
     end.
 
-  (** the whole read-only fragment, real evaluator, any fuel *)
-  Theorem ro_frame lf f : forall e, is_ro e = true -> incl (syms e) names -> both (eval lf f) e.
+  (** the fragment: the read-only operators of ReadOnly.v and relative evaluation e@k *)
+  Definition rov_op (o : op) : bool := ro_op o || match o with OReval => true | _ => false end.
+  Fixpoint is_rov (e : val) : bool :=
+    match e with
+    | VInt _ | VBool _ | VStr _ | VFloat _ | VSym _ _ => true
+    | VList _ (VOp o :: args) => rov_op o && forallb is_rov args
+    | _ => false
+    end.
+
+  (** the whole fragment, real evaluator, any fuel *)
+  Theorem ro_frame lf f : forall e, is_rov e = true -> incl (syms e) names -> both (eval lf f) e.
   Proof.
     induction f as [|f IH]; intros e Hro Hn; [split; [apply pure_fuel|apply fr_fuel]|].
     change (eval lf (S f) e) with (eval_body lf (fun e' => eval lf f e') (fun e' p => expand lf f e' p) e).
     destruct e as [| | | | | | |w l| | | | |]; try discriminate; try (split; [apply pure_ret|apply fr_ret]).
     - split; [apply pure_eval_symbol|apply fr_eval_symbol, Hn; left; reflexivity].
     - destruct l as [|h args]; [discriminate|]. destruct h as [| | | | | |o| | | | | |]; try discriminate.
-      cbn [is_ro] in Hro. apply andb_prop in Hro as [Ho Ha].
+      cbn [is_rov] in Hro. apply andb_prop in Hro as [Ho Ha].
       assert (HF : Forall (both (eval lf f)) args).
       { apply Forall_forall. intros a Hin. rewrite forallb_forall in Ha. apply IH; [apply Ha, Hin|].
         intros x Hx. apply Hn. cbn [syms flat_map]. apply in_flat_map. exists a. split; [exact Hin|exact Hx]. }
@@ -283,16 +395,18 @@ Section Names.
       + destruct o; try discriminate; unfold dispatch;
           first [ apply pure_op_not | apply pure_op_eq | apply pure_op_cmp | apply pure_op_and | apply pure_op_or
                 | apply pure_op_if | apply pure_op_do | apply pure_op_add | apply pure_op_sub | apply pure_op_mul
-                | apply pure_op_div | apply pure_op_exp | apply pure_op_mod | apply pure_op_bitwise | apply pure_op_slice ];
+                | apply pure_op_div | apply pure_op_exp | apply pure_op_mod | apply pure_op_bitwise | apply pure_op_slice
+                | apply pure_op_reval ];
           exact HP.
       + destruct o; try discriminate; unfold dispatch;
           first [ apply fr_op_not | apply fr_op_eq | apply fr_op_cmp | apply fr_op_and | apply fr_op_or
                 | apply fr_op_if | apply fr_op_do | apply fr_op_add | apply fr_op_sub | apply fr_op_mul
-                | apply fr_op_div | apply fr_op_exp | apply fr_op_mod | apply fr_op_bitwise | apply fr_op_slice ];
+                | apply fr_op_div | apply fr_op_exp | apply fr_op_mod | apply fr_op_bitwise | apply fr_op_slice
+                | apply fr_op_reval ];
           exact HF.
   Qed.
 
-  Theorem ro_frame_args lf f body : forallb is_ro body = true -> incl (flat_map syms body) names ->
+  Theorem ro_frame_args lf f body : forallb is_rov body = true -> incl (flat_map syms body) names ->
     fr (eval_args (eval lf f) body).
   Proof.
     intros Hro Hn. apply fr_eval_args. apply Forall_forall. intros a Hin. rewrite forallb_forall in Hro.
@@ -302,7 +416,7 @@ End Names.
 
 (** * in words *)
 Theorem read_only_ignores_virtual_signals lf f e st a :
-  is_ro e = true -> cwf (st_cont st) -> Forall (clean st) (syms e) ->
+  is_rov e = true -> cwf (st_cont st) -> Forall (clean st) (syms e) ->
   eval lf f e (strip st) = Ok a (strip st) -> eval lf f e st = Ok a st.
 Proof.
   intros Hro Hw Hc H. destruct (ro_frame (syms e) lf f e Hro (incl_refl _)) as [_ Hf].
@@ -351,7 +465,7 @@ Section Body.
       rewrite (amem_aset_indep sig name (mkVsig body c) (mkVsig body [])). exact Hv.
   Qed.
 
-  Hypothesis Hro : forallb is_ro body = true.
+  Hypothesis Hro : forallb is_rov body = true.
   Hypothesis Hclean : Forall (clean (vst 0 [])) (flat_map syms body).
 
   (** the body has the same value, and leaves the state alone, whatever the cache holds *)
@@ -396,6 +510,28 @@ Proof.
   intros js Hjs.
   destruct (reads_of_a_read_only_body 50 50 "t" "v" sig_state sig_trace v_body eq_refl eq_refl eq_refl demo_clean v_ts) with
     (value_at := v_value) (js := js) (c := @nil (Z * val)) as (c2 & H & _).
+  - intros j Hj. unfold in_range in Hj. cbn [tr_max sig_trace] in Hj.
+    assert (E : j = 0 \/ j = 1 \/ j = 2 \/ j = 3 \/ j = 4) by lia. destruct E as [->|[->|[->|[->| ->]]]]; reflexivity.
+  - intros j j' _ _ H. unfold v_ts in H. lia.
+  - intros j Hj. unfold in_range in Hj. cbn [tr_max sig_trace] in Hj.
+    assert (E : j = 0 \/ j = 1 \/ j = 2 \/ j = 3 \/ j = 4) by lia.
+    destruct E as [->|[->|[->|[->| ->]]]]; eexists _, _; (split; [vm_compute; reflexivity|reflexivity]).
+  - exact Hjs.
+  - intros ts v [].
+  - exists c2. exact H.
+Qed.
+
+(** a body with @: rising edge r := (&& a (! a@-1)) *)
+Definition rise_body : list val := [WL [VOp OAnd; VSym "a" None; WL [VOp ONot; WL [VOp OReval; VSym "a" None; VInt (-1)]]]].
+Definition rise_value (j : Z) : val := VBool (match j with 1 => true | 4 => true | _ => false end).
+Example rise_clean : Forall (clean (vstate "t" "r" sig_state sig_trace rise_body 0 [])) (flat_map syms rise_body).
+Proof. repeat constructor. Qed.
+Example rise_any_order : forall js, Forall (in_range sig_trace) js ->
+  exists c2, reads (eval 50 50) "t" "r" sig_state sig_trace rise_body js [] (map rise_value js) c2.
+Proof.
+  intros js Hjs.
+  destruct (reads_of_a_read_only_body 50 50 "t" "r" sig_state sig_trace rise_body eq_refl eq_refl eq_refl rise_clean v_ts) with
+    (value_at := rise_value) (js := js) (c := @nil (Z * val)) as (c2 & H & _).
   - intros j Hj. unfold in_range in Hj. cbn [tr_max sig_trace] in Hj.
     assert (E : j = 0 \/ j = 1 \/ j = 2 \/ j = 3 \/ j = 4) by lia. destruct E as [->|[->|[->|[->| ->]]]]; reflexivity.
   - intros j j' _ _ H. unfold v_ts in H. lia.
